@@ -979,7 +979,10 @@ func (g *vg) spell(ns int64) string {
 	return d.String()
 }
 
-var malformedDurations = []string{"5", "abc", "1x", "1 s", "s", "--1s", "1h1", "3000000h", "0x10s", "1e3s", "١s"}
+// (also the spellings other tools accept for durations - percentages, days, weeks, years, ISO 8601, clock notation, unit
+// words, upper-case units: none of them is a documented form)
+var malformedDurations = []string{"5", "abc", "1x", "1 s", "s", "--1s", "1h1", "3000000h", "0x10s", "1e3s", "١s",
+	"50%", "10%", "75%", "1d", "30d", "1.5d", "99999d", "200000d", "2w", "1y", "PT5S", "P1D", "00:05:00", "5sec", "5 seconds", "10min", "5S", "1H", "1hr", "5s ", " 5s", "5s;", "5.s.", "1h-5m", ".s", "0x1p4s", "1_000s"}
 
 // genDur draws a duration key whose accepted values are lo..hi (ns). specials
 // lists the special spellings that may be used as valid values.
